@@ -497,9 +497,12 @@ Definition observe (s : state) : outcome :=
           (cclosed (n_done (s_node s))).
 
 (* deterministic scheduler for the forced scenarios: fire the events one at a time and let the
-   system run to quiescence after each (always the first enabled non-environment label) *)
-Definition thread_labels (s : state) : list tid :=
-  [TNode 0; TNode 1; TNode 2; TStop] ++ flat_map assoc_labels (seq 0 (List.length (s_asc s))).
+   system run to quiescence after each (always the first enabled non-environment label).
+   conn = true: connection-level scenario, the receiver of pConnDone never takes its ctx.Done branch
+   (the harness plays the node with a goroutine that only receives) *)
+Definition thread_labels (conn : bool) (s : state) : list tid :=
+  (if conn then [TNode 0] else [TNode 0; TNode 1; TNode 2; TStop])
+  ++ flat_map assoc_labels (seq 0 (List.length (s_asc s))).
 
 Fixpoint first_enabled (s : state) (ls : list tid) : option (tid * state) :=
   match ls with
@@ -507,28 +510,28 @@ Fixpoint first_enabled (s : state) (ls : list tid) : option (tid * state) :=
   | l :: r => match step s l with Some s' => Some (l, s') | None => first_enabled s r end
   end.
 
-Fixpoint settle (fuel : nat) (s : state) (acc : list tid) : state * list tid :=
+Fixpoint settle (conn : bool) (fuel : nat) (s : state) (acc : list tid) : state * list tid :=
   match fuel with
   | O => (s, acc)
-  | S f => match first_enabled s (thread_labels s) with
-           | Some (l, s') => settle f s' (l :: acc)
+  | S f => match first_enabled s (thread_labels conn s) with
+           | Some (l, s') => settle conn f s' (l :: acc)
            | None => (s, acc)
            end
   end.
 
-Fixpoint run_forced (fuel : nat) (s : state) (n_ev : nat) (acc : list tid) : state * list tid :=
+Fixpoint run_forced (conn : bool) (fuel : nat) (s : state) (n_ev : nat) (acc : list tid) : state * list tid :=
   match n_ev with
-  | O => settle fuel s acc
-  | S k => let '(s1, acc1) := settle fuel s acc in
+  | O => settle conn fuel s acc
+  | S k => let '(s1, acc1) := settle conn fuel s acc in
            match step s1 (TEnv 0) with
-           | Some s2 => run_forced fuel s2 k (TEnv 0 :: acc1)
+           | Some s2 => run_forced conn fuel s2 k (TEnv 0 :: acc1)
            | None => (s1, acc1)
            end
   end.
 
 (* the schedule (list of thread ids) and final state of a forced scenario *)
-Definition forced (fuel : nat) (cs : list acfg) (ev : list env) : state * list tid :=
-  let '(s, acc) := run_forced fuel (init cs ev) (List.length ev) [] in (s, rev acc).
+Definition forced (conn : bool) (fuel : nat) (cs : list acfg) (ev : list env) : state * list tid :=
+  let '(s, acc) := run_forced conn fuel (init cs ev) (List.length ev) [] in (s, rev acc).
 
 (* ------------------------------------------------------------------ boolean equality (for the explorer) *)
 (* lazy conjunction: vm_compute is call-by-value, `andb` would evaluate both sides *)
@@ -595,8 +598,31 @@ Definition state_eqb (a b : state) : bool :=
      | _, _ => false
      end.
 
-Definition explore := LTS.explore state tid step state_eqb labels.
-Definition level := LTS.level state tid step state_eqb labels.
+(* hash for the explorer's visited set (any function would do; soundness does not depend on it) *)
+Local Open Scope N_scope.
+Definition fn_code (f : fname) : N :=
+  match f with FReader => 0 | FSelect => 1 | FHb => 2 | FFirst => 3 | FDo => 4 | FNode => 5 | FStop => 6 end.
+Definition st_code (t : tstat) : N :=
+  match t with TAbsent => 0 | TNotStarted => 1 | TRunning => 2 | TFinished => 3 end.
+Definition thr_key (t : thr) : N :=
+  (N.of_nat (t_pc t) * 7 + fn_code (t_fn t)) * 4 + st_code (t_st t) + 64 * N.of_nat (List.length (t_it t)).
+Definition once_code (o : once) : N := match o with ONew => 0 | ORun _ => 1 | ODone => 2 end.
+Definition b2n (b : bool) : N := if b then 1 else 0.
+Definition assoc_key (a : assoc) : N :=
+  ((((thr_key (a_rd a) * 131 + thr_key (a_sel a)) * 131 + thr_key (a_hb a)) * 131 + thr_key (a_fst a)) * 3
+   + once_code (a_once a)) * 16
+  + N.of_nat (List.length (a_inbox a)) * 8 + b2n (a_sock a) * 4 + b2n (a_tmo_armed a) * 2 + b2n (a_hb_armed a)
+  + 1024 * N.of_nat (List.length (cbuf (a_tmo a))).
+Definition state_key (s : state) : positive :=
+  let nd := s_node s in
+  N.succ_pos
+    (fold_left (fun h a => h * 1000003 + assoc_key a) (s_asc s)
+       ((thr_key (n_thr nd) * 131 + thr_key (n_stop nd)) * 64
+        + N.of_nat (List.length (cbuf (n_pcd nd))) * 8 + N.of_nat (List.length (s_env s)))).
+Local Close Scope N_scope.
+
+Definition explore := LTS.explore state tid step state_eqb state_key labels.
+Definition level := LTS.level state tid step state_eqb state_key labels.
 
 (* ------------------------------------------------------------------ T1: the source skeleton this model describes *)
 (* canonical text produced by harness/skel from conn.go / node.go; Gen/Skel_gen.v holds the text of
